@@ -3,7 +3,7 @@
 import json, os, shutil, subprocess, sys
 pid, m = sys.argv[1], sys.argv[2]
 extra = sys.argv[3:]
-src = f'/tmp/mut/{pid}/out/{m}'
+src = f'/tmp/mut/out/{pid}/{m}' if os.path.isdir(f'/tmp/mut/out/{pid}/{m}') else f'/tmp/mut/{pid}/out/{m}'
 r = subprocess.run(['/verif/tools/seedcheck.py', src, pid] + extra, capture_output=True, text=True)
 res = json.loads(r.stdout)
 ok = res['demo_on_original'] == 0 and res['patch_applies'] and res['demo_on_mutant'] != 0 and res['tests'].startswith('119 passed')
@@ -20,5 +20,10 @@ meta['confirmed'] = {'demo_exit_on_original': res['demo_on_original'], 'demo_exi
                      'demo_message': res['demo_msg'], 'test_suite_with_change': res['tests'],
                      'what_i_ran': 'tools/seedcheck.py: scratch copy of /repo, demo before/after git apply, full pytest, ./check with ONL_REPO=<copy>'}
 meta['checks'] = {k[6:]: v for k, v in res.items() if k.startswith('check_')}
+first = f'/tmp/mut/results/{pid}-{m}.json'
+if os.path.exists(first):
+    # verdict of the checks as they were when the change was first tried (before any strengthening it prompted)
+    fr = json.load(open(first))
+    meta['first_run'] = {k[6:]: {'exit': v['exit'], 'lines': v['lines'][:1]} for k, v in fr.items() if k.startswith('check_')}
 json.dump(meta, open(os.path.join(dst, 'meta.json'), 'w'), indent=1)
 print('KEPT', dst, {k: v['exit'] for k, v in meta['checks'].items()})
